@@ -73,6 +73,101 @@ def gatedCellIs (c c' : Circuit) (nodes : Array CNode) (bind : Nat → Option Bi
 /-- abstract cell: enable > 0 takes the data, enable = 0 holds, enable < 0 closes both gates -/
 def gatedNext (w d m : I32) : I32 := if w.toInt > 0 then d else if w = 0 then m else 0
 
+/-! ## `m.write(f(m.read()))` folded into arithmetic feedback: one combinator that reads its own output -/
+
+/-- the arithmetic combinator `e` of the uncut circuit computes `x op y` on `s` from operands matched in the cut
+circuit (where `e` itself is the cell: an input) -/
+def stepIsAlu (c c' : Circuit) (nodes : Array CNode) (bind : Nat → Option Bind) (op : ArithOp) (x y : VExpr)
+    (e : Nat) (s : Sig) : Bool :=
+  match c.kind e with
+  | .arith cfg =>
+    cfg.op == op && !cfg.first.isEach && !cfg.second.isEach && outIs cfg.out s &&
+      opIs c' nodes bind (entIs c' nodes bind x) x e cfg.first && opIs c' nodes bind (entIs c' nodes bind y) y e cfg.second
+  | _ => false
+
+def stepIs (c c' : Circuit) (nodes : Array CNode) (bind : Nat → Option Bind) (v : VExpr) (e : Nat) (s : Sig) : Bool :=
+  match v with
+  | .alu op x y => stepIsAlu c c' nodes bind op x y e s
+  | _ => false
+
+/-- entity `e` is the cell written with `write(d)` where `d` is an arithmetic function of the cell's own value -/
+def alwaysCellIs (c c' : Circuit) (nodes : Array CNode) (bind : Nat → Option Bind) (e : Nat) (ty : Sig) (d : Arg) : Bool :=
+  match d with
+  | .node m =>
+    decide (m < nodes.size) &&
+      (lowerings nodes (m + 1) m).any (fun v => v.under nodes.size && stepIs c c' nodes bind v e ty)
+  | .int _ => false
+
+/-! ## `m.write(f(m.read()))` folded into a ring of arithmetic combinators (C04, latency = ring length) -/
+
+/-- the operand of a ring stage that is not on the ring: an integer constant, or a declared input `q` living in
+the constant combinator `p` on signal `t` (time-invariant during a run) -/
+inductive Side
+  | int (k : I32)
+  | inp (q p : Nat) (t : Sig)
+  deriving Repr, Inhabited
+
+/-- one ring stage: Core node `node` (arithmetic, one operand on the ring) computed by entity `ent` -/
+structure RStage where
+  node : Nat
+  ent : Nat
+  op : ArithOp
+  ringFirst : Bool
+  side : Side
+  deriving Repr, Inhabited
+
+def RStage.fn (st : RStage) (k x : I32) : I32 := if st.ringFirst then alu st.op x k else alu st.op k x
+
+/-- operand `o` of entity `e` reads, on `s`, exactly the output of `prev` -/
+def ringOperand (c : Circuit) (e : Nat) (s : Sig) (prev : Nat) (o : Operand) : Bool :=
+  match o with
+  | .ref (.sig t) sel => t == s && c.isolated e sel s prev
+  | _ => false
+
+def Side.arg : Side → Arg
+  | .int k => .int k
+  | .inp q _ _ => .node q
+
+/-- operand `o` of entity `e` is the side value -/
+def sideOperand (c : Circuit) (nodes : Array CNode) (e : Nat) (n : Nat) (o : Operand) : Side → Bool
+  | .int k => (match o with | .const k' => k' == k | _ => false)
+  | .inp q p t =>
+    decide (q < n) && (match nodes[q]? with | some (.input ..) => true | _ => false) &&
+    (match c.kind p with | .const [(t', _)] => t' == t | _ => false) && ringOperand c e t p o
+
+def ringStageOK (c : Circuit) (nodes : Array CNode) (s : Sig) (prevEnt : Nat) (prevArg : Arg) (st : RStage) : Bool :=
+  argBelow st.node prevArg &&
+  match nodes[st.node]?, c.kind st.ent with
+  | some (.arith op a b _), .arith cfg =>
+    op == st.op && cfg.op == op && !cfg.first.isEach && !cfg.second.isEach && outIs cfg.out s &&
+      (if st.ringFirst then
+         a == prevArg && b == st.side.arg && ringOperand c st.ent s prevEnt cfg.first && sideOperand c nodes st.ent st.node cfg.second st.side
+       else
+         b == prevArg && a == st.side.arg && ringOperand c st.ent s prevEnt cfg.second && sideOperand c nodes st.ent st.node cfg.first st.side)
+  | _, _ => false
+
+def ringOK (c : Circuit) (nodes : Array CNode) (s : Sig) : Nat → Arg → List RStage → Bool
+  | _, _, [] => true
+  | p, a, st :: rest => ringStageOK c nodes s p a st && ringOK c nodes s st.ent (.node st.node) rest
+
+def chainVal (kOf : RStage → I32) (stages : List RStage) (x : I32) : I32 := stages.foldl (fun acc st => st.fn (kOf st) acc) x
+
+def lastEnt : Nat → List RStage → Nat
+  | p, [] => p
+  | _, st :: rest => lastEnt st.ent rest
+
+def lastArg : Arg → List RStage → Arg
+  | a, [] => a
+  | _, st :: rest => lastArg (.node st.node) rest
+
+/-- the ring `stages` is cell `m` written with `write(d)`: it starts from a read of the cell and closes on its
+own last stage -/
+def ringCellIs (c : Circuit) (nodes : Array CNode) (s : Sig) (m readNode : Nat) (stages : List RStage) (d : Arg) : Bool :=
+  !stages.isEmpty &&
+  (match nodes[readNode]? with | some (.memRead m' _) => m' == m | _ => false) &&
+  d == lastArg (.node readNode) stages &&
+  ringOK c nodes s (lastEnt 0 stages) (.node readNode) stages
+
 /-! ## discovery (untrusted) -/
 
 def readsW (cd : Cond) : Bool :=
@@ -97,6 +192,80 @@ def gatePairs (c : Circuit) (ty : Sig) : List (Nat × Nat) :=
   let ws := gs.filterMap (fun (op, t, i) => if op == .gt && t == ty then some i else none)
   let hs := gs.filterMap (fun (op, t, i) => if op == .eq && t == ty then some i else none)
   hs.flatMap (fun h => (ws.filter (fun w => (c.selProducers h RG).contains w)).map (fun w => (w, h)))
+
+/-- arithmetic combinators on signal `ty` that read their own output -/
+def selfLoops (c : Circuit) (ty : Sig) : List Nat :=
+  (List.range c.n).filter (fun i =>
+    match c.kind i with
+    | .arith cfg => outIs cfg.out ty && (c.selProducers i RG).contains i
+    | _ => false)
+
+/-- bindings a self-reading combinator suggests for the other operands of the written function -/
+def proposeAlways (c : Circuit) (nodes : Array CNode) (e : Nat) (ty : Sig) (d : Arg) : Props :=
+  match d with
+  | .node m => ((lowerings nodes (m + 1) m).findSome? (fun x => proposeLeaves c nodes x e ty)).getD []
+  | .int _ => []
+
+/-- is node `q` a declared input? -/
+def isInputNode (nodes : Array CNode) (q : Nat) : Bool :=
+  match (nodes[q]? : Option CNode) with
+  | some (.input ..) => true
+  | _ => false
+
+/-- the chain of arithmetic nodes from a read of the cell up to `a`: `(read node, stage specs in order)`;
+a spec is `(node, op, ring operand first?, side argument)` -/
+def chainNodes (nodes : Array CNode) : Nat → Arg → Option (Nat × List (Nat × ArithOp × Bool × Arg))
+  | 0, _ => none
+  | f + 1, .node n =>
+    (match (nodes[n]? : Option CNode) with
+     | some (.memRead _ _) => some (n, [])
+     | some (.arith op (.node p) (.int k) _) => (chainNodes nodes f (.node p)).map (fun (r, l) => (r, l ++ [(n, op, true, .int k)]))
+     | some (.arith op (.int k) (.node p) _) => (chainNodes nodes f (.node p)).map (fun (r, l) => (r, l ++ [(n, op, false, .int k)]))
+     | some (.arith op (.node p) (.node q) _) =>
+       if isInputNode nodes q then (chainNodes nodes f (.node p)).map (fun (r, l) => (r, l ++ [(n, op, true, .node q)]))
+       else if isInputNode nodes p then (chainNodes nodes f (.node q)).map (fun (r, l) => (r, l ++ [(n, op, false, .node p)]))
+       else none
+     | _ => none)
+  | _, .int _ => none
+
+def prevEntOf (c : Circuit) (e : Nat) (s : Sig) (ringFirst : Bool) : Option Nat :=
+  match c.kind e with
+  | .arith cfg =>
+    (match (if ringFirst then cfg.first else cfg.second) with
+     | .ref (.sig t) sel => if t == s then c.soleProducer e sel s else none
+     | _ => none)
+  | _ => none
+
+/-- the side of a stage as the circuit has it -/
+def sideOf (c : Circuit) (e : Nat) (ringFirst : Bool) (a : Arg) : Option Side :=
+  match a with
+  | .int k => some (.int k)
+  | .node q =>
+    match c.kind e with
+    | .arith cfg =>
+      (match (if ringFirst then cfg.second else cfg.first) with
+       | .ref (.sig t) sel => (c.soleProducer e sel t).map (fun p => Side.inp q p t)
+       | _ => none)
+    | _ => none
+
+/-- walk the ring backwards from its last entity -/
+def assignEnts (c : Circuit) (s : Sig) : List (Nat × ArithOp × Bool × Arg) → Nat → List RStage → Option (List RStage)
+  | [], _, acc => some acc
+  | (n, op, rf, sa) :: rest, cur, acc =>
+    match prevEntOf c cur s rf, sideOf c cur rf sa with
+    | some p, some side => assignEnts c s rest p ({ node := n, ent := cur, op, ringFirst := rf, side } :: acc)
+    | _, _ => none
+
+/-- find the ring computing `write(d)` of cell `m` on signal `s`: `(read node, stages)` -/
+def discoverRing (c : Circuit) (nodes : Array CNode) (s : Sig) (m : Nat) (d : Arg) : Option (Nat × List RStage) :=
+  match chainNodes nodes (nodes.size + 1) d with
+  | some (r, specs) =>
+    let cands := (List.range c.n).filter (fun i => match c.kind i with | .arith cfg => outIs cfg.out s | _ => false)
+    cands.findSome? (fun ek =>
+      match assignEnts c s specs.reverse ek [] with
+      | some stages => if ringCellIs c nodes s m r stages d then some (r, stages) else none
+      | none => none)
+  | none => none
 
 /-- bindings the gates of a cell suggest for its data and enable values -/
 def proposeGated (c : Circuit) (nodes : Array CNode) (ew : Nat) (ty : Sig) (d en : Arg) : Props :=
